@@ -198,7 +198,7 @@ func unquoteBytes(s []byte) (t []byte, ok bool) { //nolint: nonamedreturns
 			switch s[r] {
 			default:
 				return
-			case '"', '\\', '/', '\'':
+			case '"', '\\', '/':
 				b[w] = s[r]
 				r++
 				w++
